@@ -81,6 +81,24 @@ theorem wrong_scalar_rejected (g : V) (hg : ∀ a : F, a • g = 0 → a = 0) (k
   | false => rfl
   | true => exact absurd ((acceptPartial_iff g hg k x z c lam _).mp h).2.1 hz
 
+/-- the response for the NEGATED nonce under the assigned nonce point (z − 2k: then z·g − c·λ·Y = −R, the point with the same
+    abscissa) is rejected whenever 2 ≠ 0 in the scalar field — a verifier that compared abscissas only would accept it
+    (seed C03-12) -/
+theorem negated_nonce_response_rejected (g : V) (hg : ∀ a : F, a • g = 0 → a = 0) (k x c lam : F) (hk : k ≠ 0) (h2 : (2 : F) ≠ 0) :
+    acceptPartial (modOps g) (k • g) (k • g) (k + c * lam * x - 2 * k) c lam (x • g) = false := by
+  apply wrong_scalar_rejected g hg
+  intro h
+  have : (2 : F) * k = 0 := by
+    have e : k + c * lam * x - 2 * k = k + c * lam * x - 0 → (2 : F) * k = 0 := by
+      intro e'
+      have := sub_right_injective e'
+      exact this
+    apply e
+    rw [h, sub_zero]
+  rcases mul_eq_zero.mp this with a | a
+  · exact h2 a
+  · exact hk a
+
 theorem wrong_nonce_point_rejected (g : V) (hg : ∀ a : F, a • g = 0 → a = 0) (k x z c lam : F) (R : V) (hR : R ≠ k • g) :
     acceptPartial (modOps g) (k • g) R z c lam (x • g) = false := by
   cases h : acceptPartial (modOps g) (k • g) R z c lam (x • g) with
